@@ -25,6 +25,19 @@ VERUS = {
     # mul_ops.rs mul_large / square_large: memory_requirement_exact -> MemoryAllocation::new -> multiply / sqr: the
     # precondition of the kernel follows from the size computed
     'int_memsize_mul_ops': {'file': 'int_memsize_mul_ops.rs', 'w32': True},
+    # divide_conquer::{div_rem_in_place, _same_len, _small_quotient (prefix up to its product: rule D20u), memory_requirement_exact},
+    # div::{div_rem_in_place, div_rem_unshifted_in_place (prefix up to the division), memory_requirement_exact}:
+    # dc_need(l, n) = gneed(min(n / 2, l - n)) Words suffice for every product of the Burnikel-Ziegler recursion and the
+    # Layout returned provides them
+    'int_memsize_div': {'file': 'int_memsize_div.rs', 'w32': True},
+    # div_ops.rs div_rem_in_lhs (the one place of div_ops.rs that sizes + allocates scratch): size computed => kernel precondition
+    'int_memsize_div_ops': {'file': 'int_memsize_div_ops.rs', 'w32': True},
+    # gcd/lehmer.rs gcd_in_place under its functional + resource contract (annotations of int_leh_gcd + accounting): a chunk
+    # of gneed(|rhs| / 2) Words is enough for every Euclidean step; the division is seen through the CONJUNCTION of its
+    # functional and resource contracts (//@@ SIG a and=b).  The CALLER's sizing is the genuine defect proposed_fixes/MEM1:
+    # units/int_memsize_gcd_ops.rs (memory_requirement_up_to / _exact, gcd::gcd_in_place, gcd_ops::gcd_large) verifies on a
+    # tree with that repair and fails on the unchanged one, so it is NOT registered here yet
+    'int_memsize_gcd': {'file': 'int_memsize_gcd.rs', 'w32': True},
 }
 
 _K = 'kani/harness/int_memsize_model.rs'
@@ -33,34 +46,39 @@ KANI = {
     'int_memsize_model': {
         'package': 'dashu-int', 'target': 'integer/src/memory.rs', 'file': 'int_memsize_model.rs',
         'harnesses': {
-            'vk_memsize_find_word': {'kind': 'complete', 'props': ['C01', 'C16'],
+            'vk_memsize_find_word': {'kind': 'complete', 'props': ['C01', 'C02', 'C16'],
                                      'domain': 'try_find_memory_for_slice::<u64>: all (start <= end, n) in usize^3'},
-            'vk_memsize_find_u32': {'kind': 'complete', 'props': ['C01', 'C16'],
+            'vk_memsize_find_u32': {'kind': 'complete', 'props': ['C01', 'C02', 'C16'],
                                     'domain': 'try_find_memory_for_slice::<u32>: all (start <= end, n) in usize^3'},
-            'vk_memsize_find_u8': {'kind': 'complete', 'props': ['C01', 'C16'],
+            'vk_memsize_find_u8': {'kind': 'complete', 'props': ['C01', 'C02', 'C16'],
                                    'domain': 'try_find_memory_for_slice::<u8>: all (start <= end, n) in usize^3'},
-            'vk_memsize_alloc_fill': {'kind': 'bounded', 'props': ['C01', 'C16'],
+            'vk_memsize_alloc_fill': {'kind': 'bounded', 'props': ['C01', 'C02', 'C16'],
                                       'bound': 'real allocation of 6 Words; two nested allocate_slice_fill of symbolic '
                                                'sizes n + k <= 6, symbolic fill values'},
-            'vk_memsize_alloc_copy': {'kind': 'bounded', 'props': ['C01', 'C16'],
+            'vk_memsize_alloc_copy': {'kind': 'bounded', 'props': ['C01', 'C02', 'C16'],
                                       'bound': 'real allocation of 6 Words; allocate_slice_copy / _copy_fill with symbolic '
                                                'lengths l <= n <= 6 and symbolic contents'},
-            'vk_memsize_layout': {'kind': 'bounded', 'props': ['C01', 'C16'],
+            'vk_memsize_layout': {'kind': 'bounded', 'props': ['C01', 'C02', 'C16'],
                                   'bound': 'array_layout::<Word>(n) for every n <= isize::MAX / 8; add_layout / max_layout '
                                            'on sizes <= 2^40 and alignments in {1, 8}'},
-            'vk_memsize_fresh': {'kind': 'bounded', 'props': ['C01', 'C16'],
+            'vk_memsize_fresh': {'kind': 'bounded', 'props': ['C01', 'C02', 'C16'],
                                  'bound': 'three concrete layouts (zero_layout, 0 Words, 5 Words)'},
-            'vk_memsize_ceil_log2': {'kind': 'complete', 'props': ['C01', 'C16'],
+            'vk_memsize_ceil_log2': {'kind': 'complete', 'props': ['C01', 'C02', 'C16'],
                                      'domain': 'math::ceil_log2::<usize>: every x != 0'},
         },
     },
 }
 
 _UNDECIDED = [
-    'scratch sizing is decided for multiplication and squaring only (mul_ops.rs mul_large / square_large down to the '
-    'kernels); div / gcd / modular / pow / root callers of memory_requirement_* still see an opaque Memory',
+    'scratch sizing is decided for multiplication / squaring (mul_ops.rs mul_large, square_large down to the kernels) and '
+    'for division (div_ops.rs div_rem_in_lhs down to divide_conquer.rs) and for the gcd kernel lehmer::gcd_in_place; the '
+    'gcd_ext / modular / pow / root / div_const / gcd_ops callers of memory_requirement_* still see an opaque Memory.  GENUINE DEFECT found there by hand while writing '
+    'the gcd contract (proposed_fixes/MEM1): gcd/lehmer.rs memory_requirement_up_to sizes only the first Euclidean division',
+    'div_rem_in_place_small_quotient and div_rem_unshifted_in_place are verified up to their last use of `memory` only '
+    '(rule D20u: the value-dependent tails do not mention `memory`; they are proved in int_div_dc / int_div_ops)',
     'the capacity-tracking model lib/mem_model.rs is trusted (raw-pointer code of memory.rs; backed by the Kani group '
-    'int_memsize_model); the thresholds 24 / 192 / 30 and MIN_LEN constants are mirrored in the units',
+    'int_memsize_model); the thresholds 24 / 192 / 30 / 32 are the real constants in the units (rule E4) and literals in '
+    'the spec functions need / sqr_need / div_need (a changed constant fails the proof)',
 ]
 
 PROP_UNITS = {
@@ -68,5 +86,12 @@ PROP_UNITS = {
                       'int_memsize_mul_ops'],
             'kani': ['int_memsize_model'],
             'undecided': _UNDECIDED},
+    # division: the resource clause of "a = q b + r ... for operands of every size class" / panic freedom of `/`, `%`
+    'C02': {'verus': ['int_memsize_div', 'int_memsize_div_ops'], 'kani': ['int_memsize_model'], 'undecided': _UNDECIDED},
+    'C12': {'verus': ['int_memsize_gcd'],
+            'undecided': ['scratch sizing of UBig::gcd (gcd_ops.rs gcd_large -> gcd::memory_requirement_exact): VIOLATED on the '
+                          'unchanged tree (proposed_fixes/MEM1: a later Euclidean step needs more than the first division '
+                          'reserved; b = 2^8448 - 1, a = 2^63 b + 2^4224 - 1 panics); unit int_memsize_gcd_ops is ready for '
+                          'the repaired code; gcd_ext / modular inverse sizing not modelled']},
     'C16': {'kani': ['int_memsize_model'], 'undecided': _UNDECIDED},
 }
